@@ -76,6 +76,7 @@ type Env struct {
 	trace []string
 	// called with the caller's object after an accepted InsertOrUpdate (C14)
 	onStored func(arg *Doc)
+	prepArg  func(arg *Doc) // last touch on the caller's object before it is handed to the database
 	// evidence classification state
 	released map[string]map[string]bool
 	reopened bool
@@ -561,33 +562,50 @@ func (e *Env) Observe(db *sod.DB, queries []Query) Obs {
 func (e *Env) assignIndex(db *sod.DB, p PathInfo) string {
 	var out []string
 	var err error
+	// callers often reuse one target variable: it may be longer than the index and hold old values
+	junk := len(e.m.objs) + 2 + len(p.Path)%3
 	switch {
 	case p.Time:
-		var v []time.Time
+		v := make([]time.Time, junk)
+		for i := range v {
+			v[i] = time.Unix(7, 7)
+		}
 		err = db.AssignIndex(&Doc{}, p.Path, &v)
 		for _, x := range v {
 			out = append(out, fmt.Sprint(x.UTC().UnixNano()))
 		}
 	case p.Class == ClsInt:
-		var v []int64
+		v := make([]int64, junk)
+		for i := range v {
+			v[i] = -7777
+		}
 		err = db.AssignIndex(&Doc{}, p.Path, &v)
 		for _, x := range v {
 			out = append(out, fmt.Sprint(x))
 		}
 	case p.Class == ClsUint:
-		var v []uint64
+		v := make([]uint64, junk)
+		for i := range v {
+			v[i] = 7777
+		}
 		err = db.AssignIndex(&Doc{}, p.Path, &v)
 		for _, x := range v {
 			out = append(out, fmt.Sprint(x))
 		}
 	case p.Class == ClsFloat:
-		var v []float64
+		v := make([]float64, junk)
+		for i := range v {
+			v[i] = -77.77
+		}
 		err = db.AssignIndex(&Doc{}, p.Path, &v)
 		for _, x := range v {
 			out = append(out, fmt.Sprint(x+0))
 		}
 	default:
-		var v []string
+		v := make([]string, junk)
+		for i := range v {
+			v[i] = "junk"
+		}
 		err = db.AssignIndex(&Doc{}, p.Path, &v)
 		for _, x := range v {
 			out = append(out, fmt.Sprintf("%q", x))
@@ -754,6 +772,9 @@ func (e *Env) upsert(what string, d *Doc, id string) {
 	e.classifyUpsert(d, id, want, tv)
 	arg := cloneDoc(d)
 	arg.Initialize(id)
+	if e.prepArg != nil {
+		e.prepArg(arg)
+	}
 	err := e.db.InsertOrUpdate(arg)
 	got := classify(err)
 	e.tracef("%s -> %s", what, got)
@@ -1089,7 +1110,7 @@ func (e *Env) Exec(i int, op *Op) bool {
 			e.failf("%s: a rejected insert into a never-created collection left %d entries in the database root", what, len(ents))
 		}
 		e.flag("rejected-unknown-collection")
-	case "flushOne", "otherInsert", "other2Insert", "otherSwitch", "coldUpdate", "switch", "switchBad":
+	case "flushOne", "otherInsert", "other2Insert", "otherSwitch", "coldUpdate", "crashRepair", "switch", "switchBad":
 		// executed by the property's AfterOp hook (C10)
 	case "tick":
 		// virtual time: advanced by the property's AfterOp hook (instrumented build)
@@ -1508,6 +1529,9 @@ func (e *Env) execQuery(what string, q *Query) {
 		if err != nil {
 			e.failf("%s: One() failed: %v", what, err)
 		}
+		if s.Len() != len(set) {
+			e.failf("%s: after One() the search %s reports Len()=%d, it matched %d objects", what, q, s.Len(), len(set))
+		}
 		objs = []sod.Object{o}
 		wantN = 1
 	case "assign":
@@ -1878,9 +1902,23 @@ func (e *Env) execSnapshot(what string, op *Op) {
 			}
 			if t2.Err() == nil {
 				if objs2, err2 := t2.Collect(); err2 == nil {
+					got2 := map[string]bool{}
 					for _, o := range objs2 {
 						if !allowed[o.UUID()] {
 							e.failf("%s: %s derived from the outstanding search %s after the writes returned %s, which is outside the snapshot", what, l.Conn, q, e.docLine(o))
+						}
+						got2[o.UUID()] = true
+					}
+					if l.Conn != "or" {
+						// And narrows the snapshot to the members that satisfy the new term NOW (when a
+						// member was deleted in the meantime a scan may stop at it: then only soundness)
+						for id := range M {
+							if _, live := e.m.objs[id]; !live {
+								continue
+							}
+							if ls[id] != got2[id] && (got2[id] || len(D) == 0) {
+								e.failf("%s: And(%s %s %s) derived from the outstanding search %s after the writes: member %s (current value %s) is %s the result, the term evaluated on current values says %v", what, l.Path, l.Op, l.V, q, e.tag(id), canon(e.m.objs[id]), map[bool]string{true: "in", false: "missing from"}[got2[id]], ls[id])
+							}
 						}
 					}
 					e.flag("snapshot-derived-after-writes")
@@ -1917,6 +1955,37 @@ func (e *Env) execSnapshot(what string, op *Op) {
 	}
 	var objs []sod.Object
 	var err error
+	if q.Consumer == "delete" {
+		// deleting through the outstanding search removes the members that are still stored -
+		// all of them, also when some were deleted in the meantime - and nothing else
+		derr := s.Delete()
+		if derr != nil && len(D) == 0 {
+			e.failf("%s: Delete through the outstanding search %s failed although none of its members was deleted in the meantime: %v", what, q, derr)
+		}
+		for _, id := range sortedIDs(M) {
+			if _, live := e.m.objs[id]; !live {
+				continue
+			}
+			gone := true
+			if deleted[id] || derr != nil {
+				// deleted in the meantime and stored again under the same uuid: another object as far
+				// as the search is concerned (omitted or reported); after an error nothing is promised
+				// about the remaining members: follow the database
+				probe := &Doc{}
+				probe.Initialize(id)
+				if ok, _ := e.db.Exist(probe); ok {
+					gone = false
+				}
+			}
+			if gone {
+				e.trackDelete(id)
+				e.m.Delete(id)
+				e.flag("delete")
+			}
+		}
+		e.flag("snapshot-consumed-by-delete")
+		return
+	}
 	switch q.Consumer {
 	case "assign":
 		var docs []*Doc
@@ -1979,4 +2048,13 @@ func poison(d *Doc, aux map[string]interface{}) {
 	}
 	lv := leafForSet(d, p.Path)
 	lv.SetFloat(v)
+}
+
+func sortedIDs(m map[string]bool) []string {
+	out := make([]string, 0, len(m))
+	for id := range m {
+		out = append(out, id)
+	}
+	sort.Strings(out)
+	return out
 }
